@@ -278,6 +278,21 @@ def opDec (a : Acc) (ln : Nat) (l : Line) : Acc := Id.run do
       a := a.fail ln l "prefix" s!"ep={ep}: bytes delivered before the input ended are not a prefix of the specified output (first difference {firstDiff out sout})"
   return a
 
+/-- `BB`: bit positions at which the decoder stopped with TINFL_FLAG_STOP_ON_BLOCK_BOUNDARY must be
+    exactly the ends of the non-final blocks of the reference decoder's trace, once each. -/
+def opBb (a : Acc) (ln : Nat) (l : Line) : Acc := Id.run do
+  let zlib := l.nat "fmt" == 1
+  let data := l.bytes "data"
+  let bits := l.nats "bits"
+  let d := specDecode zlib #[] 32768 data
+  let mut a := a.bump "bb"
+  if d.verdict != "accept" then return a.bump "bb_not_accepted"
+  let want := (d.blocks.toList.filter (fun b => !b.final)).map (·.bitEnd)
+  a := a.bump "bb_boundaries" want.length
+  if want != bits then
+    a := a.fail ln l "boundary" s!"stops at bit positions {bits}, non-final blocks end at {want}"
+  return a
+
 def dispatch (a : Acc) (ln : Nat) (l : Line) : Acc :=
   match l.op with
   | "ENC" => opEnc a ln l
@@ -286,6 +301,7 @@ def dispatch (a : Acc) (ln : Nat) (l : Line) : Acc :=
   | "HDR" => opHdr a ln l
   | "CK" => opCk a ln l
   | "DEC" => opDec a ln l
+  | "BB" => opBb a ln l
   | "" => a
   | "#" => a
   | _ => a.bump ("unknown_op_" ++ l.op)
